@@ -24,5 +24,33 @@ func Sprintf(format string, args ...interface{}) string {
 			return v.Error()
 		}
 	}
+	if len(args) == 0 {
+		// fmt with no operands: "%%" prints "%", any other directive prints
+		// "%!v(MISSING)"-style noise. A format without '%' is returned as is.
+		for i := 0; i < len(format); i++ {
+			if format[i] == '%' {
+				return format + "%!(MISSING)"
+			}
+		}
+	}
 	return format
+}
+
+// ErrsError models (*errs.errorT).Error(), i.e. fmt.Sprintf("%v", e) through
+// errorT.Format without the '+' flag: "<class>: <cause text>" (class and
+// separator omitted when the class is empty, text omitted when empty).
+func ErrsError(e interface {
+	Name() (string, bool)
+	Cause() error
+}) string {
+	out := ""
+	sep := ""
+	if name, ok := e.Name(); ok && name != "" {
+		out = name
+		sep = ": "
+	}
+	if text := e.Cause().Error(); len(text) > 0 {
+		out += sep + text
+	}
+	return out
 }
